@@ -9,7 +9,7 @@ use vcommon::mon::*;
 use vcommon::rng::{hash_str, mix};
 
 const MAGIC: u64 = 0x4743_3037_5452_4143; // "GC07TRAC"
-const K_PERTURB: u64 = 6;
+const K_PERTURB: u64 = 8;
 
 fn entries() -> Vec<Entry> {
     registry().into_iter().filter(|e| e.simd8 && !e.kind.ends_with("gated")).collect()
@@ -21,6 +21,7 @@ fn eid(e: &Entry) -> u64 {
 pub fn run(mon: &mut Monitor, args: &Args) {
     match args.mode.as_deref() {
         Some("cmp") => compare(mon, args),
+        Some("show") => show(args),
         _ => trace(mon, args),
     }
 }
@@ -37,7 +38,7 @@ impl W {
             self.buf.clear();
         }
     }
-    fn rec(&mut self, id: u64, seed: u64, step: u64, o: &Result<Out, ()>, noise: &[f64], flip: bool) {
+    fn rec(&mut self, id: u64, seed: u64, step: u64, o: &Result<Out, ()>, noise: &[f64], flip: bool, scale: f64) {
         self.u(id);
         self.u(seed);
         self.u(step);
@@ -51,6 +52,7 @@ impl W {
                 }
                 self.u(o.text.as_ref().map(|t| hash_str(t)).unwrap_or(0));
                 self.u(flip as u64);
+                self.u(scale.to_bits());
                 self.u(noise.len() as u64);
                 for n in noise {
                     self.u(n.to_bits());
@@ -87,7 +89,8 @@ fn trace(mon: &mut Monitor, args: &Args) {
             let sd = mix(mix(base, id), i);
             let mut s = Src::new(sd, Mode::Ordinary);
             let o = catch_unwind(AssertUnwindSafe(|| (e.call)(&mut s))).map_err(|_| ());
-            // conditioning probe: the same call on inputs moved by <= 2 ulp
+            // conditioning probe: the same call on inputs moved by up to 64 ulp (large enough that the response is
+            // not hidden by the quantisation of intermediate results, small enough to stay linear)
             let mut noise: Vec<f64> = vec![];
             let mut flip = false;
             if let Ok(o0) = &o {
@@ -118,7 +121,16 @@ fn trace(mon: &mut Monitor, args: &Args) {
                     }
                 }
             }
-            w.rec(id, sd, 0, &o, &noise, flip);
+            let mut scale = s.max_abs;
+            if let Ok(o0) = &o {
+                for j in 0..o0.words.len() {
+                    if o0.kinds[j] != 0 {
+                        let v = fval(o0.words[j], o0.kinds[j]).abs();
+                        if v.is_finite() && v > scale { scale = v; }
+                    }
+                }
+            }
+            w.rec(id, sd, 0, &o, &noise, flip, scale);
             c.event(id % 4096, true);
         }
     }
@@ -132,7 +144,7 @@ fn trace(mon: &mut Monitor, args: &Args) {
         for step in 0..len {
             let e = &reg[pick.idx(reg.len())];
             let o = catch_unwind(AssertUnwindSafe(|| (e.call)(&mut s))).map_err(|_| ());
-            w.rec(eid(e), sd, 1 + step as u64, &o, &[], false);
+            w.rec(eid(e), sd, 1 + step as u64, &o, &[], false, 0.0);
             c.event(0x10000 + len as u64, true);
         }
     }
@@ -169,6 +181,7 @@ struct Rec {
     kinds: Vec<u8>,
     text: u64,
     flip: bool,
+    scale: f64,
     noise: Vec<f64>,
 }
 fn read_rec(r: &mut R) -> Option<Rec> {
@@ -177,7 +190,7 @@ fn read_rec(r: &mut R) -> Option<Rec> {
     let step = r.u()?;
     let n = r.u()?;
     if n == u64::MAX {
-        return Some(Rec { id, seed, step, panicked: true, words: vec![], kinds: vec![], text: 0, flip: false, noise: vec![] });
+        return Some(Rec { id, seed, step, panicked: true, words: vec![], kinds: vec![], text: 0, flip: false, scale: 0.0, noise: vec![] });
     }
     let mut words = vec![];
     let mut kinds = vec![];
@@ -187,12 +200,13 @@ fn read_rec(r: &mut R) -> Option<Rec> {
     }
     let text = r.u()?;
     let flip = r.u()? != 0;
+    let scale = f64::from_bits(r.u()?);
     let nn = r.u()?;
     let mut noise = vec![];
     for _ in 0..nn {
         noise.push(f64::from_bits(r.u()?));
     }
-    Some(Rec { id, seed, step, panicked: false, words, kinds, text, flip, noise })
+    Some(Rec { id, seed, step, panicked: false, words, kinds, text, flip, scale, noise })
 }
 
 /// `--mode cmp --trace A B <class>` with class = exact | assoc
@@ -321,14 +335,17 @@ fn compare_inner(mon: &mut Monitor, a_path: &str, b_path: &str, class: &str, pai
             let eps = if k == 32 { f32::EPSILON as f64 } else { f64::EPSILON };
             let tiny = if k == 32 { 1.2e-38 } else { 2.3e-308 };
             let noise = x.noise.get(j).copied().unwrap_or(0.0).max(y.noise.get(j).copied().unwrap_or(0.0));
-            let tol = 16.0 * noise + 4.0 * eps * a.abs().max(b.abs()) + tiny;
+            // measured input sensitivity (64 x per ulp) + norm-wise rounding slack relative to the magnitudes the call
+            // handles (largest input scalar / output lane): a lane obtained by cancellation carries the rounding
+            // error of the larger quantities it was computed from
+            let tol = noise + 32.0 * eps * x.scale.max(y.scale).max(a.abs()).max(b.abs()) + tiny;
             let d = (a - b).abs();
             c.ratio_t("difference / re-association bound", d / tol);
             if !(d <= tol) {
                 if x.flip || y.flip {
-                    c.boundary(); // a branch flips under 2-ulp input perturbations: discontinuity within slack
+                    c.boundary(); // a branch flips under the input perturbations: discontinuity within slack
                 } else if c.wants_witness("divergence", &["value", &name]) {
-                    c.violation("divergence", &["value", &name], inp(), format!("word {} = {:e}", j, a), format!("{:e}", b), format!("differs by {:.3e}, bound {:.3e} (16 x measured sensitivity to 2-ulp input perturbations {:.3e} + 4 eps |value|)", d, tol, noise));
+                    c.violation("divergence", &["value", &name], inp(), format!("word {} = {:e}", j, a), format!("{:e}", b), format!("differs by {:.3e}, bound {:.3e} (measured change under 64-ulp input perturbations {:.3e} + 32 eps x magnitude scale of the call)", d, tol, noise));
                 } else {
                     c.st.violations += 1;
                 }
@@ -341,4 +358,25 @@ fn compare_inner(mon: &mut Monitor, a_path: &str, b_path: &str, class: &str, pai
     }
     c.sample(format!("lock-step comparison of traces {} ({})", pair, class));
     mon.end(c);
+}
+
+/// debugging aid: `--mode show --filter Type::name --rest <seed>` prints inputs, output and the probe
+pub fn show(args: &Args) {
+    let f = args.filter.clone().unwrap();
+    let seed: u64 = args.rest[0].parse().unwrap();
+    for e in entries() {
+        if format!("{}::{}", e.ty, e.name) == f {
+            let mut s = Src::new(seed, Mode::Ordinary);
+            s.keep_log = true;
+            let o = (e.call)(&mut s);
+            println!("inputs {:?}", s.log);
+            println!("output {:?}", o.words.iter().zip(o.kinds.iter()).map(|(w, k)| fval(*w, (*k).max(32))).collect::<Vec<_>>());
+            for k in 0..K_PERTURB {
+                let mut sp = Src::new(seed, Mode::Ordinary);
+                sp.perturb = Some(vcommon::rng::Rng::new(mix(seed, 77 + k)));
+                let op = (e.call)(&mut sp);
+                println!("probe  {:?}", op.words.iter().zip(op.kinds.iter()).map(|(w, k)| fval(*w, (*k).max(32))).collect::<Vec<_>>());
+            }
+        }
+    }
 }
